@@ -20,7 +20,7 @@ PROPERTY = "C10"
 REPLAY_FUNC = "run_history"
 RULE = ("E2 BFS: histories of <= D operations from the alphabet {portfolio set-up on grid i with price set j (4x2), stand-alone asset "
         "set-up (3 assets x 2 grids), set-up with the grid set previously (2), split set-up (2), optimise + extract_output, to_json, "
-        "flat portfolio sharing the structured asset's inner assets (2), cost samples (2), set-up with a user-supplied fix_time_window dictionary (2), split set-up with prices as a DataFrame without dates (2), stand-alone asset set-up with the grid it was given before (2), make_slp (thorough)}; state = canonical hash of all "
+        "flat portfolio sharing the structured asset's inner assets (2), cost samples (2), set-up of a portfolio with an own-freq and a periodic asset and a user-supplied fix_time_window dictionary (3), split set-up with prices as a DataFrame without dates (2), stand-alone asset set-up with the grid it was given before (2), make_slp (thorough)}; state = canonical hash of all "
         "objects, grids (incl. cached restricted grid and discount factors) and user data; distinct = distinct states; "
         "non-trivial = transition whose call returned a problem that was compared with the fresh-object problem")
 ASSUMPTIONS = ["EAO keeps state only in the objects hashed by mc/history.py (module dictionaries are hashed before/after each run and must not change)",
@@ -44,7 +44,7 @@ def alphabet(tier):
     for k in ("con", "sto", "st"):
         for gi in (0, 2):
             ops.append(("A", k, gi))
-    ops += [("SP", 0), ("SP", 1), ("SPLIT", 0), ("SPLIT", 1), ("OPT",), ("JSON",), ("FLAT", 0), ("FLAT", 1), ("CS", 0), ("CS", 1), ("ARR", 0), ("ARR", 2), ("FIX", 0), ("FIX", 1), ("SPLITDF", 0), ("SPLITDF", 2), ("AP", "con"), ("AP", "sto")]
+    ops += [("SP", 0), ("SP", 1), ("SPLIT", 0), ("SPLIT", 1), ("OPT",), ("JSON",), ("FLAT", 0), ("FLAT", 1), ("CS", 0), ("CS", 1), ("ARR", 0), ("ARR", 2), ("FIX", 0), ("FIX", 1), ("FIX", 3), ("SPLITDF", 0), ("SPLITDF", 2), ("AP", "con"), ("AP", "sto")]
     if tier == "thorough":
         ops += [("SLP", 0), ("SLP", 1)]
     return ops
@@ -93,8 +93,9 @@ class World:
         self.flat = Portfolio([self.fm, self.isto, self.itr])
         # a user-supplied dictionary fixing the first steps to given values (date + full-length array), reused between calls
         self.fw = dict(I=T("2021-01-02 06:00"), x=np.round(np.linspace(-1.0, 1.0, 16), 3))
-        self.pf_fix = Portfolio([SimpleContract(name="fa", nodes=n1, price="p", min_cap=-5.0, max_cap=5.0),
-                                 SimpleContract(name="fb", nodes=n1, price="q", min_cap=-5.0, max_cap=5.0)])
+        # (fa has an own freq equal to the step of the 6h grids and coarser than the hourly grid; fb is periodic)
+        self.pf_fix = Portfolio([SimpleContract(name="fa", nodes=n1, price="p", min_cap=-5.0, max_cap=5.0, freq="6h"),
+                                 SimpleContract(name="fb", nodes=n1, price="q", min_cap=-5.0, max_cap=5.0, periodicity="12h")])
         self.grids = []
         for g in GRIDS:
             self.grids.append(Timegrid(T(g["start"]), T(g["end"]), freq=g["freq"], timezone=g["tz"]))
